@@ -66,7 +66,7 @@ def build_minisuite(dest: str, extra_cfg: dict[str, str] | None = None) -> str:
 _bootstrapped = None
 
 
-def bootstrap(suite: str = "mini", suite_dir: str | None = None) -> str:
+def bootstrap(suite: str = "mini", suite_dir: str | None = None, tests_overwrite: str | None = None) -> str:
     """Make `avocado_i2n` importable from the repository's working tree and point it to a suite.
 
     suite: "mini" (trimmed guest configs), "shipped" (tp_folder of the repo) or "custom" (suite_dir given).
@@ -77,7 +77,8 @@ def bootstrap(suite: str = "mini", suite_dir: str | None = None) -> str:
     os.environ.setdefault("PYTHONHASHSEED", "0")
     wd = workdir()
     # one HOME per suite: the overwrite cfg files generated there include the suite's own configs and parsed recipes keep their absolute names
-    home = os.path.join(wd, "home-" + (suite if suite != "custom" else stable_hash(suite_dir)))
+    # tests_overwrite: a user's own ~/avocado_overwrite_tests.cfg content (suite variant "mini+<hash>": same suite, customised tests)
+    home = os.path.join(wd, "home-" + (suite if suite != "custom" else stable_hash(suite_dir)) + ("-" + stable_hash(tests_overwrite) if tests_overwrite else ""))
     os.makedirs(home, exist_ok=True)
     os.environ["HOME"] = home
     if REPO not in sys.path[:1]:
@@ -101,6 +102,9 @@ def bootstrap(suite: str = "mini", suite_dir: str | None = None) -> str:
     else:
         path = suite_dir
     settings.update_option("i2n.common.suite_path", path)
+    if tests_overwrite:
+        with open(os.path.join(home, "avocado_overwrite_tests.cfg"), "w") as f:
+            f.write("# Use this config to override with test nodes configuration\ninclude " + os.path.join(path, "configs", "sets-overwrite.cfg") + "\n" + tests_overwrite)
     _bootstrapped = (suite, path)
     return path
 
